@@ -6,6 +6,13 @@ from .c01 import some_edge_of
 LEAK = r"^std::mem::forget$|Box::<T>::leak$|Box::<T, A>::leak$|ManuallyDrop::<T>::new$|IntoRawFd::into_raw_fd$|into_raw_socket$|Box::<T>::into_raw$|Arc::<T>::into_raw$"
 
 
+ACCEPT_BLOCKING = (r"mpsc::SyncSender::<T>::send$|mpsc::Receiver::<T>::(recv|recv_timeout|iter)$|mpsc::Receiver<T> as std::iter::IntoIterator|"
+                   r"JoinHandle::<T>::join$|std::sync::Condvar::wait|std::sync::Barrier::wait$|^std::thread::sleep$|^std::thread::park|"
+                   r"TcpStream::connect$|Read::read(_exact|_to_end|_to_string)?$|BufRead::read_(line|until)$|http::Request::from_stream")
+
+DETACH_BREAKERS = r"JoinSet|AbortHandle|JoinHandle::<T>::abort$|Runtime::shutdown_(timeout|background)$|LocalSet|task::spawn_local$"
+
+
 def threaded_run(chk, prog, cfg, fn):
     run = prog.bodies.get(fn)
     chk.floor(f"{core.short(fn)} [{cfg}]", 1 if run else 0, 1)
@@ -59,6 +66,37 @@ def threaded_run(chk, prog, cfg, fn):
     chk.ob("R1.stop_postdominates", lp.path, "every return of the accept thread passes thread_pool.stop()", w is None and bool(stops),
            "the accept thread can end without stopping the pool", path=w, cfg=cfg)
 
+    # R6: nothing in the accept cycle (or in what it calls) can block other than accept itself, so the flag is looked at
+    # as soon as the wake-up connection arrives, however many connections are queued or being handled
+    fwd = lp.reachable(nexts)
+    cyc = [n for n in fwd if any(x in lp.reachable([n]) for x in nexts)]
+    roots = set()
+    direct = []
+    for n in cyc:
+        t = lp.term(n)
+        if t and t["k"] == "call":
+            if n not in nexts:
+                direct.append((lp, n, t))
+            r = t.get("resolved")
+            if r:
+                roots.add(r)
+    inner = []
+    for pth in sorted(prog.reach_bodies(roots)):
+        bb = prog.bodies[pth]
+        if bb.path.startswith(lp.path + "::{closure"):
+            continue    # the task handed to the pool runs on a worker
+        for blk, t in bb.calls():
+            inner.append((bb, blk, t))
+    chk.floor(f"calls examined in the accept cycle [{cfg}/{tag}]", len(direct) + len(inner), 20)
+    bad = 0
+    for bb, blk, t in direct + inner:
+        if core.call_matches(t, ACCEPT_BLOCKING):
+            bad += 1
+            chk.ob("R6.accept_never_blocks", lp.path, f"blocking call {core.short(t['callee'])} in {core.short(bb.path)}", False,
+                   f"{t['callee']} can block the accept thread (bounded queue / wait / join): the shutdown flag is not looked at and run() does not return while it waits",
+                   where=bb.where(blk), cfg=cfg)
+    chk.ob("R6.accept_never_blocks", lp.path, "accept cycle: dispatch and monitoring only use non-blocking sends", bad == 0, "", cfg=cfg)
+
     # R2: recv -> store(true) -> connect(loopback(addr)) -> join
     recvs = [blk for blk, t in run.calls_to(r"mpsc::Receiver::<T>::recv$")]
     stores = [blk for blk, t in run.calls_to(r"atomic::Atomic::<bool>::store$|AtomicBool::store$")
@@ -94,6 +132,31 @@ def threaded_run(chk, prog, cfg, fn):
             if "TcpListener" in tys or "Incoming" in tys:
                 chk.ob("R4.listener_closed", b.path, f"listener leaked by {t['callee'].split('::')[-1]}", False,
                        "the listening socket is never closed", where=b.where(blk), cfg=cfg)
+
+
+def _mentions(x, l):
+    if isinstance(x, dict):
+        if x.get("l") == l and "p" in x:
+            return True
+        return any(_mentions(v, l) for v in x.values())
+    if isinstance(x, list):
+        return any(_mentions(v, l) for v in x)
+    return False
+
+
+def _uses_of(body, l):
+    """Statements / call arguments that read local l (drops and storage markers are not uses)."""
+    out = []
+    for b, blk in enumerate(body.blocks):
+        for st in blk["stmts"]:
+            if "rv" in st and _mentions(st["rv"], l):
+                out.append((b, "stmt"))
+        t = blk["term"]
+        if t and t["k"] == "call" and (_mentions(t.get("args"), l) or _mentions(t.get("func"), l)):
+            out.append((b, "call"))
+        if t and t["k"] in ("switch", "yield", "assert") and _mentions({k: v for k, v in t.items() if k not in ("targets",)}, l):
+            out.append((b, t["k"]))
+    return out
 
 
 def _closure_op(parent, closure, field):
@@ -182,6 +245,20 @@ def tokio_run(chk, prog, cfg, fn):
                 chk.ob("R1.tokio_cancel", co.path, "the cancelled branch leaves the accept loop with Ok(())", bool(rets) and not loops_back,
                        "after cancellation the accept loop continues", where=co.where(s), cfg=cfg)
     chk.ob("R1.tokio_cancel", co.path, "run() branches on the select outcome", found, "", cfg=cfg)
+    # R7: connection tasks are detached (tokio::spawn, JoinHandle dropped): leaving run() does not abort responses in flight
+    sp = co.calls_to(r"^tokio::spawn$|^tokio::task::spawn$")
+    chk.floor("tokio::spawn dispatch in run()", len(sp), 1)
+    for blk, t in sp:
+        dest = t.get("dest")
+        dl = dest["l"] if dest else None
+        used = _uses_of(co, dl) if dl is not None else [("?", "no destination")]
+        chk.ob("R7.detached", co.path, "the JoinHandle of a connection task is dropped at once (detached task)", not used,
+               f"the JoinHandle is kept ({len(used)} use(s)): the task's fate is tied to run()", where=co.where(blk), cfg=cfg)
+    badl = sorted(set(co.local_ty(i) for i in range(len(co.locals)) if core.re.search(r"JoinSet|AbortHandle|LocalSet", co.local_ty(i) or "")))
+    badc = [(blk, t) for blk, t in co.calls() if core.call_matches(t, DETACH_BREAKERS)]
+    chk.ob("R7.detached", co.path, "no abort-on-drop task container (JoinSet / AbortHandle / LocalSet) in run()", not badl and not badc,
+           f"run() holds {[core.short(x)[:60] for x in badl]} / calls {[core.short(t['callee']) for _, t in badc][:4]}: connection tasks are aborted when run() returns, truncating responses in flight",
+           where=co.where(badc[0][0]) if badc else "", cfg=cfg)
     for blk, t in co.calls_to(LEAK):
         if "TcpListener" in " ".join(t.get("arg_tys", [])):
             chk.ob("R4.listener_closed", co.path, "listener leaked", False, "", where=co.where(blk), cfg=cfg)
